@@ -116,6 +116,8 @@ def cond_slice_desc(c, idx):
         c2.update(Ru=len(ii), u=[c["u"][i] for i in ii], M=[c["M"][i] for i in ii], b=[c["b"][i] for i in ii])
     else:
         c2.update(R=len(ii), Sig=[c["Sig"][i] for i in ii])
+        if c.get("Sig0") is not None:          # the update_Sigma history is sliced with the object
+            c2["Sig0"] = [c["Sig0"][i] for i in ii]
         if c["cls"] in ("full", "diag"):
             c2.update(M=[c["M"][i] for i in ii], b=None if c["b"] is None else [c["b"][i] for i in ii])
     return c2
